@@ -207,6 +207,35 @@ def run(ctx, rep):
                 d = cs.dest[0]
                 if not fm.value_flows_to_decision(cp, d):
                     rep.violation("C07.size", "check_program:dropped:" + e.show(), "verdict of %s(%s) is dropped" % (cs.name, e.show()), cs.where())
+        # the sums themselves cannot overflow: every non-constant operand of a `+` inside a checked expression has been
+        # checked by an earlier, dominating check (each is then <= the limit < usize::MAX / 2); extra_cells can be
+        # usize::MAX (saturated), so an unchecked operand makes the sum wrap (release) or panic (debug)
+        ck = [(cs, Tc.operand(cs.args[0])) for cs in cp.calls() if cs.name in ("check_max_cells", "check_max_frames")]
+
+        def _peel0(t):
+            while isinstance(t, tuple) and t and t[0] == "field" and t[2] == "0" and isinstance(t[1], tuple) and t[1][0] == "bin":
+                t = t[1]
+            return t
+        for cs, t in ck:
+            todo = [_peel0(t)]
+            while todo:
+                x = _peel0(todo.pop())
+                if not (isinstance(x, tuple) and x and x[0] == "bin" and x[1] in ("Add", "AddWithOverflow", "AddUnchecked")):
+                    continue
+                for op in (x[2], x[3]):
+                    o = _peel0(op)
+                    if isinstance(o, tuple) and o and o[0] == "int":
+                        continue
+                    todo.append(o)
+                    guarded = any(c2 is not cs and cp.dominates(c2.bb, cs.bb) and c2.bb != cs.bb and expr.canon(_peel0(t2)) == expr.canon(o)
+                                  and fm.value_flows_to_decision(cp, c2.dest[0]) for c2, t2 in ck)
+                    key = "check_program:operand:%s" % expr.norm(o, _prog_rename).show()
+                    if guarded:
+                        rep.ok("C07.size", key + " is itself checked before it is added", None)
+                    else:
+                        rep.violation("C07.size", key, "%s is added inside the argument of %s without having been checked on its own first: it can be "
+                                      "as large as usize::MAX (a saturated bound), so the sum overflows before the check"
+                                      % (expr.norm(o, _prog_rename).show(), cs.name), cs.where())
         rep.count("checked_cell_sums", len(checked["cells"]))
         rep.count("checked_frame_sums", len(checked["frames"]))
     if fp is None:
